@@ -281,3 +281,91 @@ def has_concrete(e):
     if k == "ternary":
         return has_concrete(e[2]) or has_concrete(e[3])
     return True
+
+
+# ---------------------------------------------------------------- total bindings for histories (C02)
+class TotalGen:
+    """bindings that are defined in EVERY world: pointer chains are guarded against null, int arithmetic is bitwise only (no overflow), no division / shifts;
+    only property reads (no method results, no this): what the notify signals can keep current"""
+    def __init__(self, rng, max_depth=3):
+        self.rng = rng
+        self.max_depth = max_depth
+        self.n = 0
+
+    def pick(self, xs):
+        return xs[self.rng.randrange(len(xs))]
+
+    def path(self):
+        """(expression of a VObj* that is never dereferenced while null, guard conditions)"""
+        base = ("ident", self.pick(OBJS))
+        k = self.pick([0, 0, 1, 1, 2])
+        guards = []
+        e = base
+        for _ in range(k):
+            e = ("member", e, "next")
+            guards.append(("binary", "!=", e, ("null",)))
+        if k == 0 and self.rng.random() < 0.2:
+            c = ("member", ("ident", self.pick(["a", "b"])), "b")
+            return ("ternary", c, ("ident", "a"), ("ident", "b")), []
+        return e, guards
+
+    def default(self, ty):
+        return {"bool": ("bool", False), "int": ("member", ("ident", "sub"), "i"), "uint": ("member", ("ident", "sub"), "u"), "string": ("str", "none"), "vobj": ("null",)}[ty]
+
+    def read(self, ty):
+        p, guards = self.path()
+        r = ("member", p, PROP[ty])
+        if not guards:
+            return r
+        c = guards[0]
+        for g in guards[1:]:
+            c = ("binary", "&&", c, g)
+        d = self.default(ty)
+        if ty == "vobj":
+            d = ("ident", "sub")
+        return ("ternary", c, r, d)
+
+    def expr(self, ty, d=0):
+        leaf = d >= self.max_depth or self.rng.random() < 0.3 + 0.15 * d
+        r = self.rng.random()
+        if leaf:
+            return self.read(ty)
+        if ty == "bool":
+            if r < 0.3:
+                return ("unary", "!", self.expr("bool", d + 1))
+            if r < 0.6:
+                return ("binary", self.pick(["&&", "||"]), self.expr("bool", d + 1), self.expr("bool", d + 1))
+            t = self.pick(["int", "uint", "string"])
+            return ("binary", self.pick(["==", "!=", "<", ">="]), self.expr(t, d + 1), self.expr(t, d + 1))
+        if ty == "int":
+            if r < 0.6:
+                return ("binary", self.pick(["&", "|", "^"]), self.expr("int", d + 1), self.pick([self.expr("int", d + 1), ("int", self.pick([1, 3, 255]))]))
+            return ("ternary", self.expr("bool", d + 1), self.expr("int", d + 1), self.expr("int", d + 1))
+        if ty == "uint":
+            if r < 0.6:
+                return ("binary", self.pick(["+", "-", "*", "&", "|"]), self.expr("uint", d + 1), self.pick([self.expr("uint", d + 1), ("int", self.pick([1, 2, 7]))]))
+            return ("ternary", self.expr("bool", d + 1), self.expr("uint", d + 1), self.expr("uint", d + 1))
+        if ty == "string":
+            if r < 0.6:
+                return ("binary", "+", self.expr("string", d + 1), self.pick([self.expr("string", d + 1), ("str", self.pick(STRS))]))
+            return ("ternary", self.expr("bool", d + 1), self.expr("string", d + 1), self.expr("string", d + 1))
+        return self.read("vobj")
+
+    def binding(self):
+        t = self.pick(["bool", "int", "uint", "string", "vobj", "int", "string"])
+        r = self.rng.random()
+        if r < 0.6:
+            return ("binding_expr", self.expr(t, 0)), t
+        if r < 0.8:
+            # through a local variable
+            p, guards = self.path()
+            body = [("decl", "let", [("p", None, p)])]
+            if guards:
+                c = guards[0]
+                for g in guards[1:]:
+                    c = ("binary", "&&", c, g)
+                body = [("if", ("unary", "!", c), ("block", [("return", self.default(t) if t != "vobj" else ("ident", "sub"))]), None)] + body
+            body.append(("return", ("member", ("ident", "p"), PROP[t])))
+            return ("binding_block", body), t
+        c = self.expr("bool", 1)
+        return ("binding_block", [("if", c, ("block", [("return", self.expr(t, 1))]), ("block", [("return", self.expr(t, 1))]))]), t
